@@ -208,6 +208,10 @@ def generate(model: Model):
 
     try:
         mod, tree = _fresh("_shuffle")
+        for cdef in (x for x in tree.body if isinstance(x, ast.ClassDef) and x.name == "_SetIndexPost"):
+            for fn in (x for x in cdef.body if isinstance(x, ast.FunctionDef) and x.name == "_get_culled_divisions"):
+                for lc in (x for x in ast.walk(fn) if isinstance(x, ast.ListComp) and "for part in partitions" in ast.unparse(x)):
+                    yield "mutant", "revert:selection-as-set:_SetIndexPost", "R11i", mod.rel, _splice(mod.source, lc, "[div for i, div in enumerate(divisions) if i in partitions._partitions]".replace("partitions._partitions", "part_filter[0]._partitions"))
         for cdef in (x for x in tree.body if isinstance(x, ast.ClassDef) and x.name in ("SetIndex", "SortValues", "SetIndexBlockwise")):
             for fn in (x for x in cdef.body if isinstance(x, ast.FunctionDef) and x.name == "_simplify_up"):
                 for st in (x for x in ast.walk(fn) if isinstance(x, ast.Assign) and isinstance(x.value, ast.ListComp) and ast.unparse(x.value.generators[0].iter) == "self.frame.columns" and ast.unparse(x.targets[0]) == "columns"):
